@@ -8,7 +8,10 @@ use std::{
     sync::Arc,
 };
 
-use fontdrasil::orchestration::{Access, AccessBuilder, Work};
+use fontdrasil::{
+    orchestration::{Access, AccessBuilder, Work},
+    types::GlyphName,
+};
 use fontir::orchestration::WorkId as FeWorkId;
 use write_fonts::{
     OtRound, dump_table,
@@ -33,6 +36,22 @@ struct MetricAndLimitWork {}
 
 pub fn create_metric_and_limit_work() -> Box<BeWork> {
     Box::new(MetricAndLimitWork {})
+}
+
+/// Round an advance width to the u16 that hmtx holds.
+///
+/// A plain `ot_round()` would silently clamp a negative or too large advance;
+/// like ufo2ft we refuse to build such a glyph instead.
+fn advance_width(glyph_name: &GlyphName, width: f64) -> Result<u16, Error> {
+    let rounded: f64 = width.ot_round();
+    if (0.0..=u16::MAX as f64).contains(&rounded) {
+        Ok(rounded as u16)
+    } else {
+        Err(Error::OutOfBounds {
+            what: format!("advance width of '{glyph_name}'"),
+            value: format!("{width}"),
+        })
+    }
 }
 
 /// A builder for aggregating metrics and calculating their limits, for
@@ -350,14 +369,12 @@ impl Work<Context, AnyWorkId, Error> for MetricAndLimitWork {
         let builder =
             glyph_order
                 .iter()
-                .fold(MetricsBuilder::default(), |mut builder, (_gid, gn)| {
+                .try_fold(MetricsBuilder::default(), |mut builder, (_gid, gn)| {
                     // https://github.com/googlefonts/ufo2ft/blob/2f11b0ff/Lib/ufo2ft/outlineCompiler.py#L741-L747
-                    let advance: u16 = context
-                        .ir
-                        .get_glyph(gn.clone())
-                        .default_instance()
-                        .width
-                        .ot_round();
+                    let advance = advance_width(
+                        gn,
+                        context.ir.get_glyph(gn.clone()).default_instance().width,
+                    )?;
 
                     let glyph = context.glyphs.get(&WorkId::GlyfFragment(gn.clone()).into());
 
@@ -368,8 +385,8 @@ impl Work<Context, AnyWorkId, Error> for MetricAndLimitWork {
                         .map(|bbox| bbox.x_max as i32 - bbox.x_min as i32);
 
                     builder.update(advance, side_bearing, bounds_advance);
-                    builder
-                });
+                    Ok::<_, Error>(builder)
+                })?;
 
         let metrics = builder.build();
 
@@ -481,6 +498,19 @@ mod tests {
                 glyph_limits.min_second_side_bearing
             )
         );
+    }
+
+    #[test]
+    fn advance_width_that_does_not_fit_is_an_error() {
+        let name = GlyphName::new("a");
+        assert_eq!(0, advance_width(&name, -0.5).unwrap());
+        assert_eq!(u16::MAX, advance_width(&name, 65535.25).unwrap());
+        for bad in [-1.0, 65535.5, 70000.0, f64::NAN] {
+            assert!(
+                matches!(advance_width(&name, bad), Err(Error::OutOfBounds { .. })),
+                "{bad}"
+            );
+        }
     }
 
     #[test]
